@@ -3,7 +3,7 @@ From H2T Require Import Base Tagged Wrap Sub Css Dom Render Api Proofs.Small.
    nothing at all - before its children, pseudo-content or fragment marker are looked at. *)
 Theorem c18_hidden_is_nothing : forall sd (udc : bool) (ist : list (text * text) -> res (list styledecl)) html name attrs kids p idx sty,
   (if udc then ist attrs else Ok []) = Ok sty ->
-  ws_val (c_display (cs_core (computed_style sd (mkanc name attrs idx :: p) sty))) <> None ->
+  ws_val (c_display (cs_core (computed_style sd (mkanc name attrs idx :: p) sty))) = Some true ->
   process sd udc ist (NElem html name attrs kids) p idx = Ok None.
 Proof. exact hidden_is_nothing. Qed.
 Print Assumptions c18_hidden_is_nothing.
